@@ -18,10 +18,12 @@ import (
 	"math/big"
 	"os"
 	"path/filepath"
+	"regexp"
 	"runtime"
 	"sort"
 	"strconv"
 	"strings"
+	"sync"
 	"time"
 
 	"com.tuntun.rangers/node/src/common"
@@ -88,6 +90,7 @@ type Scenario struct {
 	Castor    string   `json:"castor,omitempty"`
 	Txs       []TxS    `json:"txs"`
 	Situation string   `json:"situation,omitempty"`
+	Config    string   `json:"config,omitempty"` // "" = dev table with the flag vector; "mainnet" / "robin" = the real schedule at this height
 	// searcher only: run the N executions under these chain heights (common.GetBlockHeight)
 	// with the dev fork table instead of the flag string
 	GlobalHeights []uint64 `json:"globalHeights,omitempty"`
@@ -95,14 +98,23 @@ type Scenario struct {
 
 // ---------------------------------------------------------------- stubs
 
-type world struct{ group *types.Group }
+type world struct {
+	mu     sync.Mutex
+	groups map[string]*types.Group
+}
 
-var theWorld = &world{}
+var theWorld = &world{groups: map[string]*types.Group{}}
+
+func (w *world) get(id []byte) *types.Group {
+	w.mu.Lock()
+	defer w.mu.Unlock()
+	return w.groups[string(id)]
+}
 
 type stubG struct{}
 
 func (stubG) GetAvailableGroupsByMinerId(height uint64, minerId []byte) []*types.Group { return nil }
-func (stubG) GetGroupById(id []byte) *types.Group                                   { return theWorld.group }
+func (stubG) GetGroupById(id []byte) *types.Group                                   { return theWorld.get(id) }
 
 type stubF struct{ stubG }
 
@@ -123,7 +135,33 @@ func pick(b byte) uint64 {
 
 var devConfig common.ChainConfig
 
+var histConfigs = map[string]common.ChainConfig{}
+
+func boolBit(b bool) byte {
+	if b {
+		return '1'
+	}
+	return '0'
+}
+
 func applyFlags(sc *Scenario, global uint64, useDev bool) {
+	if cfg, ok := histConfigs[sc.Config]; ok && !useDev {
+		// the real activation schedule; the flag vector handed to the model is what the real
+		// IsProposalNNN() answer at this process height
+		common.LocalChainConfig = cfg
+		common.SetBlockHeight(global)
+		sc.Flags = string([]byte{boolBit(common.IsProposal006()), boolBit(common.IsProposal007()), boolBit(common.IsProposal016()),
+			boolBit(common.IsProposal018()), boolBit(common.IsProposal021()), boolBit(common.IsProposal023())})
+		sc.P026 = common.IsProposal026()
+		sc.P004 = cfg.Proposal004Block == sc.Height
+		sc.P010 = cfg.Proposal010Block == sc.Height
+		sc.P019 = cfg.Proposal019Block == sc.Height
+		sc.P025 = 0
+		if sc.Height >= cfg.Proposal025Block {
+			sc.P025 = cfg.Proposal025Block
+		}
+		return
+	}
 	if useDev {
 		common.LocalChainConfig = devConfig
 		common.SetBlockHeight(global)
@@ -245,14 +283,15 @@ func mkBlock(sc *Scenario) *types.Block {
 	if sc.Castor != "" {
 		h.Castor = unhex(sc.Castor)
 	}
-	theWorld.group = nil
 	if len(sc.Group) > 0 {
-		h.GroupId = []byte{7, 7}
+		h.GroupId = common.Sha256([]byte("group" + sc.Name))[:6]
 		g := &types.Group{Id: h.GroupId, Header: &types.GroupHeader{}}
 		for _, id := range sc.Group {
 			g.Members = append(g.Members, unhex(id))
 		}
-		theWorld.group = g
+		theWorld.mu.Lock()
+		theWorld.groups[string(h.GroupId)] = g
+		theWorld.mu.Unlock()
 	}
 	h.Hash = common.BytesToHash(common.Sha256([]byte(sc.Name + strconv.FormatUint(sc.Height, 10))))
 	b := &types.Block{Header: h}
@@ -309,6 +348,82 @@ func (o outcome) fingerprint() string {
 	return sb.String()
 }
 
+
+// ---------------------------------------------------------------- independent references for the leaf conversions
+//
+// The op lines carry leaf values computed by go-rangers (HexToAddress, HexStringToAddress, FromHex,
+// StrToBigInt, getTotalReward).  A regression in one of them would make model and implementation
+// agree on garbage, so each is cross-checked against a reference written here with the standard
+// library only; a disagreement turns the block's answer into ORACLE-DIFF (a broken tie).
+
+var oracleDiffs []string
+
+func refFromHex(s string) []byte {
+	if len(s) > 1 {
+		if s[0:2] == "0x" || s[0:2] == "0X" {
+			s = s[2:]
+		}
+		if len(s)%2 == 1 {
+			s = "0" + s
+		}
+		b, _ := hex.DecodeString(s) // bytes decoded before the first bad digit, like the repo's Hex2Bytes
+		return b
+	}
+	return nil
+}
+
+func refAddr(b []byte) (a common.Address) {
+	if len(b) > 20 {
+		b = b[len(b)-20:]
+	}
+	copy(a[:], b)
+	return
+}
+
+func refFeeAddr(s string) (a common.Address) {
+	if len(s) < 2 || s[:2] != "0x" {
+		return
+	}
+	b, _ := hex.DecodeString(s[2:])
+	if len(b) == 20 {
+		copy(a[:], b)
+	}
+	return
+}
+
+var decimalRe = regexp.MustCompile(`^[+-]?([0-9]+\.?[0-9]*|\.[0-9]+)([eE][+-]?[0-9]{1,2})?$`)
+
+// refAmount: "" -> 0; plain decimals (optional exponent) -> floor(value * 10^18), negative -> x;
+// ok=false when the reference makes no claim about this spelling
+func refAmount(s string) (string, bool) {
+	if s == "" {
+		return "0", true
+	}
+	if len(s) > 30 || !decimalRe.MatchString(s) {
+		return "", false
+	}
+	r, ok := new(big.Rat).SetString(s)
+	if !ok {
+		return "", false
+	}
+	if r.Sign() < 0 {
+		return "x", true
+	}
+	r.Mul(r, new(big.Rat).SetInt(new(big.Int).Exp(big.NewInt(10), big.NewInt(18), nil)))
+	return new(big.Int).Quo(r.Num(), r.Denom()).String(), true
+}
+
+func refTotalReward(height uint64) float64 {
+	ep := height / common.GetBlocksPerEpoch()
+	return common.TotalRPGSupply * math.Pow(1-common.ReleaseRate, float64(ep)) * common.ReleaseRate / float64(common.GetBlocksPerEpoch())
+}
+
+func oracleCheck(what, impl, ref string) {
+	if impl != ref && len(oracleDiffs) < 5 {
+		oracleDiffs = append(oracleDiffs, fmt.Sprintf("%s:impl=%s,ref=%s", what, impl, ref))
+	}
+}
+
 // ---------------------------------------------------------------- op emission (corr)
 
 type tgt struct {
@@ -333,6 +448,10 @@ func decodeExtra(extra string) (kind string, ts []tgt) {
 		if err == nil && v.Sign() >= 0 {
 			a = v.String()
 		}
+		if ra, ok := refAmount(td.Balance); ok {
+			oracleCheck("StrToBigInt("+strconv.Quote(td.Balance)+")", a, ra)
+		}
+		oracleCheck("HexToAddress("+strconv.Quote(k)+")", a20(common.HexToAddress(k)), a20(refAddr(refFromHex(k))))
 		ts = append(ts, tgt{k, common.HexToAddress(k), a})
 	}
 	sort.Slice(ts, func(i, j int) bool { return ts[i].key < ts[j].key })
@@ -411,6 +530,9 @@ func txTokens(r *hx.Rng, x TxS, watch map[common.Address]bool) string {
 	fa := common.HexStringToAddress(x.Source)
 	watch[src], watch[fa] = true, true
 	sn := new(big.Int).SetBytes(common.FromHex(x.Source))
+	oracleCheck("HexToAddress(source "+strconv.Quote(x.Source)+")", a20(src), a20(refAddr(refFromHex(x.Source))))
+	oracleCheck("HexStringToAddress("+strconv.Quote(x.Source)+")", a20(fa), a20(refFeeAddr(x.Source)))
+	oracleCheck("FromHex("+strconv.Quote(x.Source)+")", sn.String(), new(big.Int).SetBytes(refFromHex(x.Source)).String())
 	var sb strings.Builder
 	fmt.Fprintf(&sb, " %s %d %d %d %s %s %s %s", x.Hash, x.Req, x.Nonce, x.Type, hx.Hex([]byte(x.Source)), a20(src), a20(fa), hx.Hex(sn.Bytes()))
 	if x.Type == types.TransactionTypeMinerRefund {
@@ -539,6 +661,7 @@ func rewardTokens(sc *Scenario, watch map[common.Address]bool, wesc map[escKey]b
 	if sc.Castor != "" {
 		castor = sc.Castor
 	}
+	oracleCheck("getTotalReward", strconv.FormatUint(math.Float64bits(service.GetTotalReward(sc.Height)), 16), strconv.FormatUint(math.Float64bits(refTotalReward(sc.Height)), 16))
 	s := fmt.Sprintf(" F %d %d %s", math.Float64bits(service.GetTotalReward(sc.Height)), common.GetRewardBlocks(), castor)
 	if len(sc.Group) == 0 {
 		return s + " x"
@@ -574,6 +697,7 @@ func msgClass(m string) string {
 }
 
 func emitScenario(out *hx.Out, r *hx.Rng, sc *Scenario) {
+	oracleDiffs = nil
 	watch := map[common.Address]bool{common.FeeAccount: true, common.Address{}: true}
 	wesc := map[escKey]bool{}
 	out.Emit("reset", "ok")
@@ -653,6 +777,9 @@ func emitScenario(out *hx.Out, r *hx.Rng, sc *Scenario) {
 		typeOf[common.BytesToHash(unhex(x.Hash))] = x.Type
 	}
 	out.Do(op, func() string {
+		if len(oracleDiffs) > 0 {
+			return "ORACLE-DIFF " + strings.ReplaceAll(strings.Join(oracleDiffs, ";"), " ", "_")
+		}
 		o := execOnce(sc, root, t)
 		var ev, rc []string
 		for _, h := range o.evicted {
@@ -759,6 +886,22 @@ func amountStr(r *hx.Rng, balWei *big.Int, fee *big.Int) string {
 
 func randHash(r *hx.Rng) string {
 	b := r.Bytes(32)
+	switch r.Intn(24) { // boundary encodings random bytes (almost) never produce
+	case 0:
+		b[0] = 0 // leading zero byte
+	case 1:
+		b[0], b[1], b[2] = 0, 0, 0
+	case 2:
+		for i := range b {
+			b[i] = 0xff
+		}
+		b[31] = byte(r.Intn(256))
+	case 3:
+		for i := range b {
+			b[i] = 0
+		}
+		b[31] = byte(r.Intn(4))
+	}
 	if r.Chance(1, 6) {
 		for i := 0; i < 31; i++ {
 			b[i] = 0x11 // shared prefix: order decided by the last byte
@@ -1281,6 +1424,50 @@ func genEvmScenario(r *hx.Rng, i int) *Scenario {
 	return sc
 }
 
+
+// genHistorical: the same kind of block under the REAL mainnet / robin activation schedule at a
+// height right below, at and above one of the proposal activations (process height = height-1,
+// as on the normal path).  interpretedOnly = only transaction kinds the model interprets under
+// every flag vector (transfers, unknown types) and no reward group.
+func genHistorical(r *hx.Rng, i int, interpretedOnly bool) *Scenario {
+	env := []string{"mainnet", "robin"}[r.Intn(2)]
+	c := histConfigs[env]
+	acts := []uint64{c.Proposal002Block, c.Proposal003Block, c.Proposal004Block, c.Proposal005Block, c.Proposal006Block, c.Proposal007Block,
+		c.Proposal008Block, c.Proposal009Block, c.Proposal010Block, c.Proposal011Block, c.Proposal012Block, c.Proposal013Block, c.Proposal015Block,
+		c.Proposal016Block, c.Proposal017Block, c.Proposal018Block, c.Proposal019Block, c.Proposal020Block, c.Proposal021Block, c.Proposal023Block,
+		c.Proposal025Block, c.Proposal026Block, c.Proposal027Block}
+	var h uint64
+	for tries := 0; tries < 50; tries++ {
+		a := acts[r.Intn(len(acts))]
+		if a < 10 || a == maxU {
+			continue
+		}
+		h = a + uint64(r.Intn(4)) - 1 // a-1 .. a+2: process height a-2 .. a+1
+		if interpretedOnly && h <= c.Proposal002Block+1 {
+			continue // before Proposal002 balance writes are not journaled: revert semantics differ from the model
+		}
+		break
+	}
+	if h == 0 {
+		h = c.Proposal023Block + 1
+	}
+	sc := genScenario(r, i, !interpretedOnly)
+	sc.Name = fmt.Sprintf("hist-%s-%d-%d", env, h, i)
+	sc.Config, sc.Height = env, h
+	sc.Escrow, sc.DiffCount, sc.Working = nil, 0, 0
+	if interpretedOnly {
+		sc.Miners, sc.Group, sc.Castor = nil, nil, ""
+		var keep []TxS
+		for _, x := range sc.Txs {
+			if x.Type != 4 && x.Type != 200 {
+				keep = append(keep, x)
+			}
+		}
+		sc.Txs = keep
+	}
+	return sc
+}
+
 // ---------------------------------------------------------------- direct site ops
 
 func emitSiteOps(out *hx.Out, r *hx.Rng, i int) {
@@ -1490,6 +1677,12 @@ func mark(i, n int, fp string) {
 }
 
 func nfold(sc *Scenario, n int) map[string]int {
+	// the parent state is written under the scenario's own configuration (InsertMiner consults flags)
+	if len(sc.GlobalHeights) > 0 {
+		applyFlags(sc, sc.GlobalHeights[0], true)
+	} else {
+		applyFlags(sc, sc.Height-1, false)
+	}
 	root, t := buildParent(sc)
 	hasContract := false
 	for _, x := range sc.Txs {
@@ -1754,7 +1947,13 @@ func search(a map[string]string, r *hx.Rng) {
 	poisonRng = r.Fork()
 	for i := 0; i < cases; i++ {
 		var sc *Scenario
-		if i%4 == 2 {
+		if i%8 == 6 {
+			sc = genHistorical(r, i, false)
+			if r.Bool() {
+				widen(r, sc)
+			}
+			kinds["historical-"+sc.Config]++
+		} else if i%4 == 2 {
 			sc = genScenario(r, i, true)
 			widen(r, sc)
 			forceMinerTxs(r, sc)
@@ -1829,6 +2028,10 @@ func corpusScenarios() []*Scenario {
 
 func main() {
 	a := hx.Args()
+	for _, env := range []string{"mainnet", "robin"} {
+		common.Init(0, "verif.ini", env)
+		histConfigs[env] = common.LocalChainConfig
+	}
 	hxnode.BootServices("dev")
 	core.VerifC01InitLoggers()
 	service.InitRewardCalculator(stubB{}, stubG{}, stubF{})
@@ -1884,6 +2087,12 @@ func main() {
 			emitSortOp(out, r)
 		case i%10 == 9:
 			emitMalformed(out, r)
+		case i%10 == 3:
+			sc := genHistorical(r, i, true)
+			applyFlags(sc, sc.Height-1, false)
+			sizes["historical-"+sc.Config]++
+			sizes["historical flags="+sc.Flags]++
+			emitScenario(out, r, sc)
 		default:
 			sc := genScenario(r, i, true)
 			sizes[fmt.Sprintf("txs=%d", len(sc.Txs))]++
